@@ -347,7 +347,7 @@ def c17_1(cx):
         cx.only_if(bt, s, VariantIn(r"thread_id_of_transferred_query\(", {"None"}), "Released only if the transfer chain no longer resolves")
 
 
-@ob("C17.3", ["C17"], "verifying (or handing to execute) a memo loaded BEFORE the claim misses the result a concurrent owner just inserted: the function body runs a second time in the same revision", kind="ORDER")
+@ob("C17.3", ["C17", "C16"], "verifying (or handing to execute) a memo loaded BEFORE the claim misses the result a concurrent owner just inserted: the function body runs a second time in the same revision", kind="ORDER")
 def c17_3(cx):
     """fetch_cold and maybe_changed_after_cold::inner load the memo after the successful claim (the load is control-dependent on ClaimResult::Claimed) and verify_memo precedes execute / Reexecute."""
     f = cx.fn(r"^function::fetch::<impl function::IngredientImpl<C>>::fetch_cold$")
